@@ -1,9 +1,13 @@
 //! Target types, frame generators and the reference decoder shared by C01 / C07 (and reused by
 //! the chain and server scenarios).
 
-use crate::{tape::Tape, world::SimSocket};
+use crate::{
+    tape::Tape,
+    world::{cancellable, SimReadHalf, SimSocket, World},
+};
+use futures_util::{pin_mut, StreamExt};
 use serde::{Deserialize, Serialize};
-use zlink_core::{varlink_service, Call, Connection, Reply, ReplyError};
+use zlink_core::{connection::ReadConnection, varlink_service, Call, Connection, Reply, ReplyError};
 
 #[derive(Debug, Serialize, Deserialize, PartialEq)]
 #[serde(tag = "method", content = "parameters")]
@@ -112,6 +116,71 @@ pub async fn recv_kind(conn: &mut Connection<SimSocket>, kind: usize) -> Res {
         3 => norm_reply(conn.receive_reply::<(), ErrA>().await),
         4 => norm_reply(conn.receive_reply::<OptParams<'_>, ErrA>().await),
         _ => norm_reply(conn.receive_reply::<StrictReply, ErrA>().await),
+    }
+}
+
+/// The same receive, issued on the read half itself (`Connection::read_mut()` or a split-off
+/// `ReadConnection`) instead of through `Connection`'s forwarding methods.
+pub async fn recv_kind_read(rc: &mut ReadConnection<SimReadHalf>, kind: usize) -> Res {
+    match kind {
+        0 => match rc.receive_call::<MethA<'_>>().await {
+            Ok(c) => Res::Ok(format!("{c:?}")),
+            Err(e) => norm_err(e),
+        },
+        1 => match rc.receive_call::<MethStrict>().await {
+            Ok(c) => Res::Ok(format!("{c:?}")),
+            Err(e) => norm_err(e),
+        },
+        2 => match rc.receive_call::<varlink_service::Method<'_>>().await {
+            Ok(c) => Res::Ok(format!("{c:?}")),
+            Err(e) => norm_err(e),
+        },
+        3 => norm_reply(rc.receive_reply::<(), ErrA>().await),
+        4 => norm_reply(rc.receive_reply::<OptParams<'_>, ErrA>().await),
+        _ => norm_reply(rc.receive_reply::<StrictReply, ErrA>().await),
+    }
+}
+
+async fn chain_inner<'c, P, E>(world: &World, conn: &'c mut Connection<SimSocket>, calls: usize, max_items: usize, cancel: bool, out: &mut Vec<Res>) -> bool
+where
+    P: Deserialize<'c> + std::fmt::Debug + 'c,
+    E: Deserialize<'c> + std::fmt::Debug + 'c,
+{
+    let call = Call::new(MethA::Ping);
+    let mut chain = conn.chain_call::<_, P, E>(&call).expect("enqueue of a small call");
+    for _ in 1..calls {
+        chain = chain.append(&call).expect("enqueue of a small call");
+    }
+    // the calls go to a sink; abandoning a *send* is C19's subject, so it is awaited
+    let stream = chain.send().await.expect("write to a sink");
+    pin_mut!(stream);
+    while out.len() < max_items {
+        let next = stream.next();
+        let item = if cancel {
+            match cancellable(world, next).await {
+                Some(i) => i,
+                // abandoned: returning drops the stream and with it the pending receive
+                None => return true,
+            }
+        } else {
+            next.await
+        };
+        match item {
+            Some(it) => out.push(norm_reply(it)),
+            None => break,
+        }
+    }
+    false
+}
+
+/// Receive replies of kind 3..=5 through a chain of `calls` plain calls and its reply stream:
+/// up to `max_items` results (the stream may end earlier: it counts final replies and stops at a
+/// connection-level error). Returns true if the pending `next()` was abandoned.
+pub async fn recv_via_chain(world: &World, conn: &mut Connection<SimSocket>, kind: usize, calls: usize, max_items: usize, cancel: bool, out: &mut Vec<Res>) -> bool {
+    match kind {
+        3 => chain_inner::<(), ErrA>(world, conn, calls, max_items, cancel, out).await,
+        4 => chain_inner::<OptParams<'_>, ErrA>(world, conn, calls, max_items, cancel, out).await,
+        _ => chain_inner::<StrictReply, ErrA>(world, conn, calls, max_items, cancel, out).await,
     }
 }
 
